@@ -34,6 +34,9 @@ pub struct Case {
     /// fetch (and compare) the state after stage i as well, not only at the end
     pub fetch_after: Vec<bool>,
     pub keyspace: String,
+    /// 0 = the sender's server hosts one store; 1 / 2 = it also serves a second store of another storage type (holding a
+    /// keyspace of the same name with other content), registered after / before the one under test (seeded change `C19l`)
+    pub other_store: u8,
 }
 
 pub struct Transfer;
@@ -102,7 +105,8 @@ impl Prop for Transfer {
         }
         let keyspace = src.pick(&["ks", "a", "a-much-longer-keyspace-name-to-shift-offsets", "k\u{e9}y"]).to_string();
         let fetch_after = (0..build.len()).map(|_| src.chance(1, 2)).collect();
-        Case { build, fetch_after, keyspace }
+        let other_store = *src.pick(&[0u8, 0, 1, 2]);
+        Case { build, fetch_after, keyspace, other_store }
     }
 
     fn run(&self, case: &Case) -> Outcome {
@@ -112,6 +116,7 @@ impl Prop for Transfer {
     fn describe(&self, case: &Case) -> Value {
         json!({
             "keyspace": case.keyspace,
+            "second_store_on_the_server": match case.other_store { 0 => "none", 1 => "registered after the one under test", _ => "registered before the one under test" },
             "fetch_after_stage": case.fetch_after,
             "build": case.build.iter().map(|b| match b {
                 Build::Ops(ops) => json!(ops.iter().map(|(o, s)| { let mut j = o.json(); j["source"] = json!(s); j }).collect::<Vec<_>>()),
@@ -139,8 +144,36 @@ async fn run(case: &Case) -> Outcome {
     let store = ModelStore::default();
     let group = e2::new_group(store.clone(), 1).await;
     let server = Server::listen(addr).await.expect("listen");
-    server.add_service(ReplicationService::new(group.clone()));
     let ks = case.keyspace.as_str();
+    // A node may host several replicated stores (one extension per storage type): a second store with a keyspace of the
+    // same name and other content is served by the same server; the peer must still be handed the state it asked for.
+    let other_group = if case.other_store != 0 {
+        let g = datacake_eventual_consistency::verif::KeyspaceGroup::new(
+            std::sync::Arc::new(crate::store::SideStore(ModelStore::default())),
+            Clock::new(1),
+        )
+        .await;
+        let m = g.get_or_create_keyspace(ks).await;
+        let decoy = Stamp { secs: 60_000_000, frac: 0, counter: 0, node: 77 };
+        let _ = m
+            .send(datacake_eventual_consistency::verif::Set::<crate::store::SideStore> {
+                source: 0,
+                doc: e2::doc(999_999, decoy, 0),
+                ctx: None,
+                _marker: std::marker::PhantomData,
+            })
+            .await;
+        Some(g)
+    } else {
+        None
+    };
+    if case.other_store == 2 {
+        server.add_service(ReplicationService::new(other_group.clone().unwrap()));
+    }
+    server.add_service(ReplicationService::new(group.clone()));
+    if case.other_store == 1 {
+        server.add_service(ReplicationService::new(other_group.clone().unwrap()));
+    }
 
     let mut origins = std::collections::BTreeSet::new();
     let mut sources = std::collections::BTreeSet::new();
@@ -246,6 +279,9 @@ async fn run(case: &Case) -> Outcome {
     let v = view(&sender);
     let entries = v.live.len() + v.dead.len();
     let mut labels = vec![];
+    if case.other_store != 0 {
+        labels.push("second_store_on_the_server");
+    }
     labels.push(match entries {
         0 => "size_0",
         1..=20 => "size_1..20",
@@ -404,7 +440,7 @@ impl Prop for Huge {
             build.push(Build::Bulk { n: n / 3, origins, base_secs: base_secs + 100, delete: true });
         }
         let fetch_after = build.iter().map(|_| false).collect();
-        Case { build, fetch_after, keyspace: src.pick(&["ks", "k\u{e9}y"]).to_string() }
+        Case { build, fetch_after, keyspace: src.pick(&["ks", "k\u{e9}y"]).to_string(), other_store: 0 }
     }
 
     fn run(&self, case: &Case) -> Outcome {
